@@ -535,8 +535,28 @@ def operand_vars(func, rule, mod):
 
 def check_sign_tests(chk):
     from .. import evalsim
+    try:
+        _check_sign_tests_concrete(chk)
+    except Unrecognised as exc:
+        chk.unrec('C11.S', f'relational operators on concrete operands: {exc.what}', exc.where)
     evalsim.report(chk, {'relational': 'C11.S'}, {'relational': '6 relational operators x value_compare result in {-1, 0, 1} x 3 operand type pairs: the result is the sign test of ONE call of '
                                                                'value_compare on (left, right) (or the mirrored test on (right, left))'})
+
+
+def _check_sign_tests_concrete(chk):
+    from .. import evalsim
+    n, problems = evalsim.relational_concrete(chk.repo, 'C11.S')
+    mod = chk.repo.module('runtime')
+    hard = [p for p in problems if p[0] == 'relational']
+    soft = [p for p in problems if p[0] == 'undecided']
+    if hard:
+        chk.bad('C11.S', mod, 'evaluate_expression', hard[0][1][:110], f'abstract evaluation on concrete operand pairs: {hard[0][1]} ({len(hard)} of {n} evaluations deviate)',
+                node=mod.funcs.get('evaluate_expression'))
+    elif soft:
+        chk.unrec('C11.S', f'relational operators on concrete operands: {soft[0][1]} ({len(soft)} of {n} undecided)', mod.rel)
+    else:
+        chk.ok('C11.S', f'{n} evaluations: 6 relational operators on every ordered pair of {round((n / 6) ** 0.5)} concrete sample values (null, booleans, numbers, strings, nested arrays '
+               f'and objects incl. [1] vs [true]) give the sign test of the total value order', count=n)
 
 
 # --------------------------------------------------------------------------- C11.U
